@@ -27,10 +27,14 @@ type gstate struct {
 	panicked bool
 	name     string
 	daemon   bool
+	vc       vclock // happens-before clock (race.go)
 }
 
 type ichan struct {
 	id     int
+	bufVC  []vclock // clock of the sender of each buffered value
+	rvc    vclock   // joined clocks of completed receives (acquired by later sends)
+	cvc    vclock   // clock of the close
 	buf    []value
 	cap    int
 	closed bool
@@ -42,7 +46,8 @@ type ichan struct {
 
 type waiter struct {
 	g     *gstate
-	val   value // for senders
+	vc    vclock // sender's clock at the send
+	val   value  // for senders
 	sel   *selWait
 	caseI int
 	dead  bool
@@ -53,6 +58,8 @@ type selWait struct {
 }
 
 type imutex struct {
+	vc     vclock // released by Unlock
+	rvc    vclock // released by RUnlock
 	locked bool
 	owner  int
 	q      []*gstate
@@ -61,8 +68,9 @@ type imutex struct {
 }
 
 type iwg struct {
-	n int
-	q []*gstate
+	vc vclock
+	n  int
+	q  []*gstate
 }
 
 type scheduler struct {
@@ -78,6 +86,9 @@ type scheduler struct {
 	mutexes  map[*value]*imutex
 	wgs      map[*value]*iwg
 	onces    map[*value]bool
+	onceVC   map[*value]vclock
+	atomVC   map[*value]vclock
+	race     *raceState
 	nchan    int
 	switches int
 	log      []int // schedule: goroutine ids in order of switches
@@ -85,10 +96,12 @@ type scheduler struct {
 
 func newScheduler(i *interpreter, symbolic bool, preempt int) *scheduler {
 	s := &scheduler{i: i, symbolic: symbolic, preempt: preempt,
-		mutexes: map[*value]*imutex{}, wgs: map[*value]*iwg{}, onces: map[*value]bool{}}
+		mutexes: map[*value]*imutex{}, wgs: map[*value]*iwg{}, onces: map[*value]bool{},
+		onceVC: map[*value]vclock{}, atomVC: map[*value]vclock{}}
 	main := &gstate{id: 0, wake: make(chan struct{}, 1), name: "main"}
 	s.gs = []*gstate{main}
 	s.cur = main
+	s.raceInit()
 	return s
 }
 
@@ -266,6 +279,10 @@ func (fr *frame) goStmt(instr *ssa.Go, fn value, args []value) {
 		g.name = f.String()
 	}
 	s.gs = append(s.gs, g)
+	// happens-before: everything the parent did so far precedes the child
+	g.vc = s.cur.vc.clone()
+	g.tick()
+	s.cur.tick()
 	s.hostWG.Add(1)
 	go func() {
 		defer s.hostWG.Done()
@@ -352,18 +369,32 @@ func (fr *frame) chanSend(chv value, v value) {
 			w.sel.fired = true
 		}
 		w.g.recvVal, w.g.recvOk, w.g.selCase = v, true, w.caseI
+		// the send precedes the receive; on an unbuffered channel the receive (already
+		// started by w.g) also precedes the completion of the send
+		s.cur.acquire(ch.rvc)
+		w.g.acquire(s.cur.vc)
+		if ch.cap == 0 {
+			s.cur.acquire(w.g.vc)
+		}
+		s.cur.tick()
+		w.g.release(&ch.rvc)
 		s.ready(w.g)
 		s.point(fr)
 		return
 	}
 	if len(ch.buf) < ch.cap {
 		ch.buf = append(ch.buf, v)
+		s.cur.acquire(ch.rvc)
+		ch.bufVC = append(ch.bufVC, s.cur.vc.clone())
+		s.cur.tick()
 		s.point(fr)
 		return
 	}
-	w := &waiter{g: s.cur, val: v}
+	w := &waiter{g: s.cur, val: v, vc: s.cur.vc.clone()}
+	s.cur.tick()
 	ch.sendq = append(ch.sendq, w)
 	s.block(fr, fmt.Sprintf("chan send c%d", ch.id))
+	s.cur.acquire(ch.rvc)
 	if s.cur.panicked {
 		s.cur.panicked = false
 		panic(targetPanic{iface{fr.i.runtimeErrorString, "send on closed channel"}})
@@ -404,6 +435,11 @@ func (ch *ichan) tryRecv(s *scheduler) (v value, ok bool, done bool) {
 	if len(ch.buf) > 0 {
 		v = ch.buf[0]
 		ch.buf = ch.buf[1:]
+		if len(ch.bufVC) > 0 {
+			s.cur.acquire(ch.bufVC[0])
+			ch.bufVC = ch.bufVC[1:]
+		}
+		defer s.cur.release(&ch.rvc)
 		// move a blocked sender into the buffer
 		for len(ch.sendq) > 0 {
 			w := ch.sendq[0]
@@ -416,6 +452,7 @@ func (ch *ichan) tryRecv(s *scheduler) (v value, ok bool, done bool) {
 				w.g.selCase = w.caseI
 			}
 			ch.buf = append(ch.buf, w.val)
+			ch.bufVC = append(ch.bufVC, w.vc)
 			s.ready(w.g)
 			break
 		}
@@ -431,10 +468,17 @@ func (ch *ichan) tryRecv(s *scheduler) (v value, ok bool, done bool) {
 			w.sel.fired = true
 			w.g.selCase = w.caseI
 		}
+		// rendezvous with a blocked sender
+		s.cur.acquire(w.vc)
+		if ch.cap == 0 {
+			w.g.acquire(s.cur.vc)
+		}
+		s.cur.release(&ch.rvc)
 		s.ready(w.g)
 		return w.val, true, true
 	}
 	if ch.closed {
+		s.cur.acquire(ch.cvc)
 		return nil, false, true
 	}
 	return nil, false, false
@@ -478,6 +522,10 @@ func (fr *frame) chanClose(chv value) {
 	}
 	ch.closed = true
 	ch.closes++
+	if s != nil {
+		ch.cvc = s.cur.vc.clone()
+		s.cur.tick()
+	}
 	for _, w := range ch.recvq {
 		if w.dead || (w.sel != nil && w.sel.fired) {
 			continue
@@ -485,6 +533,7 @@ func (fr *frame) chanClose(chv value) {
 		if w.sel != nil {
 			w.sel.fired = true
 		}
+		w.g.acquire(ch.cvc)
 		w.g.recvVal, w.g.recvOk, w.g.selCase = nil, false, w.caseI
 		s.ready(w.g)
 	}
@@ -569,12 +618,22 @@ func (fr *frame) selectStmt(instr *ssa.Select) value {
 					w.sel.fired = true
 				}
 				w.g.recvVal, w.g.recvOk, w.g.selCase = x.val, true, w.caseI
+				s.cur.acquire(x.ch.rvc)
+				w.g.acquire(s.cur.vc)
+				if x.ch.cap == 0 {
+					s.cur.acquire(w.g.vc)
+				}
+				s.cur.tick()
+				w.g.release(&x.ch.rvc)
 				s.ready(w.g)
 				sent = true
 				break
 			}
 			if !sent {
 				x.ch.buf = append(x.ch.buf, x.val)
+				s.cur.acquire(x.ch.rvc)
+				x.ch.bufVC = append(x.ch.bufVC, s.cur.vc.clone())
+				s.cur.tick()
 			}
 			return result(k, nil, false)
 		}
@@ -593,7 +652,7 @@ func (fr *frame) selectStmt(instr *ssa.Select) value {
 			continue
 		}
 		any = true
-		w := &waiter{g: g, sel: sw, caseI: k, val: x.val}
+		w := &waiter{g: g, sel: sw, caseI: k, val: x.val, vc: g.vc.clone()}
 		if x.send {
 			x.ch.sendq = append(x.ch.sendq, w)
 		} else {
@@ -609,6 +668,8 @@ func (fr *frame) selectStmt(instr *ssa.Select) value {
 		panic(targetPanic{iface{fr.i.runtimeErrorString, "send on closed channel"}})
 	}
 	if states[k].send {
+		g.acquire(states[k].ch.rvc)
+		g.tick()
 		return result(k, nil, false)
 	}
 	v, ok := g.recvVal, g.recvOk
@@ -641,6 +702,8 @@ func (fr *frame) mutexLock(p *value) {
 	}
 	m.locked = true
 	m.owner = s.cur.id
+	s.cur.acquire(m.vc)
+	s.cur.acquire(m.rvc)
 }
 
 func (fr *frame) mutexUnlock(p *value) {
@@ -653,6 +716,7 @@ func (fr *frame) mutexUnlock(p *value) {
 		panic(targetPanic{iface{fr.i.runtimeErrorString, "sync: unlock of unlocked mutex"}})
 	}
 	m.locked = false
+	s.cur.release(&m.vc)
 	q := m.q
 	m.q = nil
 	for _, g := range q {
@@ -673,6 +737,7 @@ func (fr *frame) rwRLock(p *value) {
 		s.block(fr, "rwmutex-r")
 	}
 	m.readers++
+	s.cur.acquire(m.vc)
 }
 
 func (fr *frame) rwRUnlock(p *value) {
@@ -682,6 +747,7 @@ func (fr *frame) rwRUnlock(p *value) {
 	}
 	m := s.mutex(p)
 	m.readers--
+	s.cur.release(&m.rvc)
 	if m.readers == 0 {
 		q := m.q
 		m.q = nil
@@ -709,6 +775,9 @@ func (fr *frame) wgAdd(p *value, n int) {
 	s.point(fr)
 	w := s.wg(p)
 	w.n += n
+	if n < 0 {
+		s.cur.release(&w.vc)
+	}
 	if w.n < 0 {
 		panic(targetPanic{iface{fr.i.runtimeErrorString, "sync: negative WaitGroup counter"}})
 	}
@@ -732,6 +801,7 @@ func (fr *frame) wgWait(p *value) {
 		w.q = append(w.q, s.cur)
 		s.block(fr, "waitgroup")
 	}
+	s.cur.acquire(w.vc)
 }
 
 // yield lets other goroutines run (runtime.Gosched, time.Sleep).
